@@ -2,12 +2,12 @@
 import sys, glob, os, concurrent.futures
 sys.path.insert(0,'/verif/vx'); import run
 units=sys.argv[1:] or sorted(os.path.basename(p)[:-6] for p in glob.glob('/verif/specs/*.vspec'))
-jobs=[(u,sd) for u in units for sd in (11,23,37,59)]
+jobs=[(u,sd) for sd in (11,23,37,59) for u in units]   # seed-major: two jobs of one unit never run at the same time (they share the generated file)
 def go(j):
     u,sd=j
     r=run.run_unit(u, None, ('--smt-option','smt.random_seed=%d'%sd))
     return u,sd,r['status'],[f['obligation'] for f in r['failures']]
-with concurrent.futures.ThreadPoolExecutor(max_workers=5) as ex:
+with concurrent.futures.ThreadPoolExecutor(max_workers=max(1,min(5,len(units)))) as ex:
     for u,sd,st,fl in ex.map(go,jobs):
         if st!='ok': print('UNSTABLE',u,sd,st,fl,flush=True)
 print('sweep done',len(jobs))
